@@ -87,7 +87,7 @@ static void state_sections(fh sec[NSEC])
 
         h = &sec[SEC_CC];
         struct caption *cc = &v->cc;
-        fh_add(h, cc->last, 2); fh_i(h, cc->curr_chan);
+        fh_add(h, cc->last, 2); fh_add(h, &cc->curr_chan, sizeof cc->curr_chan);    /* int[2], one per field (repo commit 'current caption channel ... per field') */
         for (int i = 0; i < 9; i++) {
                 cc_channel *ch = &cc->channel[i];
                 fh_i(h, ch->mode); fh_i(h, ch->col); fh_i(h, ch->col1); fh_i(h, ch->row); fh_i(h, ch->row1); fh_i(h, ch->roll);
@@ -169,7 +169,8 @@ static void audit(void)
                 AUDIT(nt >= -1 && nt <= 16 * 13, "X/26 triplet count outside -1..208", "magazine %d num_triplets=%d | %s", m, nt, cur_ctx);
         }
         struct caption *cc = &v->cc;
-        AUDIT(cc->curr_chan >= 0 && cc->curr_chan <= 8, "caption curr_chan outside 0..8", "curr_chan=%d | %s", cc->curr_chan, cur_ctx);
+        for (int f = 0; f < 2; f++)
+                AUDIT(cc->curr_chan[f] >= 0 && cc->curr_chan[f] <= 8, "caption curr_chan outside 0..8", "curr_chan[%d]=%d | %s", f, cc->curr_chan[f], cur_ctx);
         for (int i = 0; i < 9; i++) {
                 cc_channel *ch = &cc->channel[i];
                 AUDIT(ch->col >= 0 && ch->col <= 33 && ch->col1 >= 0 && ch->col1 <= 33 && ch->row >= 0 && ch->row <= 14 && ch->row1 >= 0 && ch->row1 <= 14
